@@ -279,12 +279,12 @@ func workerMain() {
 	}
 	// no GOMEMLIMIT: a soft limit near the live heap makes the GC thrash and turns memory growth into CPU time
 	vm.VerifRecoverHook = func(r any) { lastRaw = &rawPanic{val: r, stack: string(debug.Stack())} }
-	e := setupEnv()
-	if pf := os.Getenv("C11_PROF"); pf != "" {
+	if pf := os.Getenv("C11_PROF"); pf != "" { // debugging: CPU profile of the worker (including environment set-up)
 		f, _ := os.Create(pf)
 		pprof.StartCPUProfile(f)
 		defer pprof.StopCPUProfile()
 	}
+	e := setupEnv()
 	g := newGen(os.Getenv("C11_TIER") == "thorough")
 	if lf := os.Getenv("C11_LISTIDS"); lf != "" { // debugging: print the ids of a family
 		f := g.family(lf)
@@ -295,6 +295,7 @@ func workerMain() {
 				fmt.Println(i, f.Case(i).ID)
 			}
 		}
+		pprof.StopCPUProfile()
 		os.Exit(0)
 	}
 	if sf := os.Getenv("C11_SRCFILE"); sf != "" { // ad-hoc replay of one source file
